@@ -332,6 +332,28 @@ func genDataCase(r *core.RNG, o dataGenOpts) dataCase {
 			if r.Chance(1, 6) {
 				b[0] = []byte{0x00, 0x02, 0x03, 0x06, 0x0d, 0x80, 0xe0, 0xff}[r.Intn(8)] // first bytes that mean something to another layer
 			}
+			if r.Chance(1, 10) {
+				// content with structure: one repeated byte, a short repeated pattern, the frame's own address or
+				// header bytes inside the payload, a 16-byte block repeated (equal cipher blocks)
+				switch r.Intn(5) {
+				case 0:
+					for i := range b {
+						b[i] = b[0]
+					}
+				case 1:
+					for i := range b {
+						b[i] = b[i%2]
+					}
+				case 2:
+					copy(b, []byte{d.Spec.DevAddr[3], d.Spec.DevAddr[2], d.Spec.DevAddr[1], d.Spec.DevAddr[0]})
+				case 3:
+					copy(b, []byte{d.Spec.MType << 5, d.Spec.DevAddr[3], d.Spec.DevAddr[2], d.Spec.DevAddr[1], d.Spec.DevAddr[0], 0x80})
+				default:
+					for i := 16; i < len(b); i++ {
+						b[i] = b[i%16]
+					}
+				}
+			}
 			if 2*n <= maxFRM && r.Chance(1, 16) {
 				b = append(append([]byte{}, b...), b...)
 				d.SameItemTwice = true
